@@ -64,6 +64,11 @@ REQUIRED_EULER = ["reorder_copies_agree", "M44_extractSHRTOrd", "M44_extractSHRT
                   "eulerTrigSpec_to_C11", "sqrtSpec_to_C11", "roundTrip_all", "M44_extractSHRTEuler_recompose", "M44_extractSHRTOrd_recompose",
                   "M44_extractSHRTEuler_total", "M44_extractSHRTEuler_recompose_R", "M44_extractSHRTOrd_recompose_R"]
 IDX_C12 = os.path.join(troute.GEN, "index_c12.txt")
+# procrustesRotationAndTranslation on 3 points (third translation unit harness/sym/sym_c12p.cpp -> Gen/C12P.lean): the text of
+# ImathMatrixAlgo.cpp with its double arithmetic made symbolic, jacobiSVD an uninterpreted parameter; TV bitwise at double
+MODULE_PROC = "ImathVerif.Props.C12Procrustes"
+REQUIRED_PROC = ["procrustes3_weighted", "procrustes3_zero_weight", "unit_weights", "procrustes3_unweighted", "spec_maps_centroid",
+                 "spec_linear_is_scaled_rotation", "nonvacuity_procrustes3"]
 REQUIRED_LINK = ["extractEulerXYZ_unit", "extractEulerXYZ_copies_agree", "setEulerAngles_toMat", "rotH3_extractEulerXYZ",
                  "M44_extractSHRT_recompose", "M44_sansScaling_recompose", "M44_removeScaling_recompose",
                  "sqrtSpec_real", "eulerTrigSpec_real", "rotH3_extractEulerXYZ_real", "M44_extractSHRT_recompose_real",
@@ -387,6 +392,9 @@ def run(chk):
                    "second translation unit harness/sym/sym_c12e.cpp (rOrder / Euler<T>& overloads of extractSHRT, computeRSMatrix): every callee is "
                    "an opaque call of a definition regenerated by the same run (Gen/C12.lean) or of the hand model; the specialised re-ordering "
                    "constructor aborts unless its source order is XYZ; TV evaluates the real callees",
+                   "third translation unit harness/sym/sym_c12p.cpp: ImathMatrixAlgo.cpp #included with the tokens double/V3d/M33d/M44d re-defined "
+                   "to the symbolic scalar (the compiled text is the file itself); jacobiSVD an uninterpreted parameter; TV bitwise at double "
+                   "against the separately compiled unmodified file",
                    "C11's extracted Euler definitions (Gen/C11Euler.lean: toMatrix33/44, toXYZVector, XYZ-layout constructor, re-ordering "
                    "constructor) and theorems, as regenerated by C11's own check",
                    "long double reference arithmetic of the residue harness", "g++ -O1 -ffp-contract=off and the CPU"]
@@ -394,7 +402,10 @@ def run(chk):
                        "(SqrtSpec, TrigSpec), shown satisfiable by the real functions",
                        "one Jacobi rotation is proved to be an orthogonal similarity GIVEN parameters that are unit pairs and diagonalise "
                        "the 2x2 block, and the parameters the SVD code AND the eigen solver compute with tolerance 0 are proved to be such; the "
-                       "effect of a positive tolerance, rounding, convergence of the sweeps, accuracy and procrustes (no model) are MEASURED (partial)",
+                       "effect of a positive tolerance, rounding, convergence of the sweeps, accuracy are MEASURED (partial)",
+                       "procrustes: for N = 3, doScale = false the value is proved to be translate(-cA) * V U^T * translate(cB) for the solver's "
+                       "factors of the (weighted) covariance (centroid to centroid, rotation given an orthogonal det +1 solver, identity on zero weight); "
+                       "the doScale value, optimality / exact recovery, other N and rounding are MEASURED",
                        "success of the SHRT extraction: with 1 < max it returns true exactly on non-singular linear parts (exact arithmetic); on "
                        "floats the overflow guards can reject nearly singular input, which is what the property allows",
                        "the rOrder / Euler<T>& overloads of extractSHRT recompose through toMatrix44: FULL for all 24 orders, gimbal lock included "
@@ -420,8 +431,11 @@ def run(chk):
     bins = troute.build_extractors(chk, [dict(name="sym_leaf", source="sym/sym_leaf.cpp"), dict(name="sym_c12", source="sym/sym_c12.cpp"),
                                          dict(name="sym_c12e", source="sym/sym_c12e.cpp")])
     res = lib.cxx_build_many([dict(name="c12_corr", sources=["corr/c12_corr.cpp"]), dict(name="c12_residue", sources=["corr/c12_residue.cpp"]),
-                              dict(name="c12_corr_f", sources=["corr/c12_corr.cpp"], extra=("-DC12_FLOAT",))])
-    for nm in ("c12_corr", "c12_residue", "c12_corr_f"):
+                              dict(name="c12_corr_f", sources=["corr/c12_corr.cpp"], extra=("-DC12_FLOAT",)),
+                              # symbolic procrustes + the real, unmodified ImathMatrixAlgo.cpp (what translator validation calls)
+                              dict(name="sym_c12p", sources=["sym/sym_c12p.cpp", os.path.join(lib.REPO, "src/Imath/ImathMatrixAlgo.cpp")],
+                                   extra=troute.SYM_FLAGS)])
+    for nm in ("c12_corr", "c12_residue", "c12_corr_f", "sym_c12p"):
         ok, path, log = res[nm]
         chk.oblige("build:" + nm, "build", ok, None if ok else log[-1500:])
         if not ok:
@@ -444,6 +458,9 @@ def run(chk):
             troute.tv(chk, bins["sym_c12e"], "c12e", 400 if chk.thorough else 64, idx_deps=idx_deps_e())
             for d in index_e[:4]:
                 chk.sample({"entry": d["name"], "paths": d.get("paths")})
+    if bins.get("sym_c12p"):
+        index_p, _ = troute.regenerate(chk, bins["sym_c12p"], "c12p")
+        troute.tv(chk, bins["sym_c12p"], "c12p", 400 if chk.thorough else 64)
     rc, out = lib.lake_build(["drv_shrt"])
     chk.oblige("build:drv_shrt", "build", rc == 0, None if rc == 0 else out[-800:])
     if rc != 0:
@@ -457,6 +474,7 @@ def run(chk):
     chk.check_theorems(MODULE_FULL, required=REQUIRED_FULL,
                        search=lambda n: defect_search(chk, bins.get("sym_c12"), n) if bins.get("sym_c12") else None)
     chk.check_theorems(MODULE_LINK, required=REQUIRED_LINK, search=lambda n: generic_search(chk, state, n))
+    chk.check_theorems(MODULE_PROC, required=REQUIRED_PROC, search=lambda n: None)
     chk.check_theorems(MODULE_EULER, required=REQUIRED_EULER,
                        search=lambda n: euler_search(chk, bins.get("sym_c12e"), n) or generic_search(chk, state, n))
     # removeScaling (Matrix33) returns sansScaling's matrix (theorem M33_removeScaling): its recomposition theorem is derived from
